@@ -102,6 +102,15 @@ CLAIMED = {
         "DESIGN.md §4 C09",
         "exploration",
     ),
+    "C06": (
+        "Hypothesis-sampled statement kinds x read points; description vs fetched values, DictCursor keys, declared types, describe() on a twin",
+        "A catalogue of ~125 statements of every kind is sampled with the read point, cursor class and paramstyle; description must not "
+        "raise, must agree with the Python values fetched and with declared types, must equal describe() on a fresh twin (which must not "
+        "execute), and reading it must leave rows, state, context and open transactions unchanged (twin + snapshot oracle). Exploration.",
+        "The statement catalogue is fixed (each statement succeeds on the fixed setup); type agreement uses the connector's type-code table.",
+        "DESIGN.md §4 C06",
+        "exploration",
+    ),
 }
 
 NOT_YET = {}
